@@ -48,14 +48,14 @@ type proposalView struct {
 type mProposal struct {
 	expr       string            // strategy expression recorded in the proposal when it was first seen
 	ineligible map[string]string // administrators that were unavailable (status) throughout the block that created the proposal
-	id        string
-	votes     map[string]string // accepted votes: voter address -> approve|reject
-	order     []string
-	concluded string // status once observed concluded
-	frozen    string // raw proposal bytes at conclusion
-	objAtEnd  string // object record right after the concluding block
-	endBlock  uint64
-	createdAt uint64
+	id         string
+	votes      map[string]string // accepted votes: voter address -> approve|reject
+	order      []string
+	concluded  string // status once observed concluded
+	frozen     string // raw proposal bytes at conclusion
+	objAtEnd   string // object record right after the concluding block
+	endBlock   uint64
+	createdAt  uint64
 }
 
 type govModel struct {
@@ -67,9 +67,10 @@ type govModel struct {
 	forbidden     map[string]bool
 	blocked       map[string]map[string]bool // "svc:<chain>:<id>" -> full ids of the sources it blocked after the previous block
 	blockedNow    map[string]map[string]bool
-	reentrantSeen bool // see afterBlockGov
-	tainted       map[string]bool // objects already reported by checkOpenProposalStatus
+	reentrantSeen bool              // see afterBlockGov
+	tainted       map[string]bool   // objects already reported by checkOpenProposalStatus
 	bindingBy     map[string]string // "node:<account>" -> open role proposal (register / bind) that put the node into 'binding'
+	bindingLast   map[string]string // status those nodes had after the previous block
 }
 
 func newGovModel(s *scn) *govModel {
